@@ -15,6 +15,7 @@
 -/
 import LccModel.Model.RunAccept
 import LccModel.Lemmas.SchedInterrupt
+import LccModel.Lemmas.RunFlags
 import LccModel.Props.C01
 import LccModel.Props.C03
 
@@ -151,5 +152,72 @@ example : ((run C01.sampleGraph 2 (init C01.sampleGraph 2) interruptedSample).ma
 example : ((run (TaskGraph.graphOf C01Graph.sampleProj) 2 (init (TaskGraph.graphOf C01Graph.sampleProj) 2) C03.interruptedRun).map
     (fun s => (s.aborted, s.finishAt ⟨.test, ["a", "t1"]⟩, s.finishAt ⟨.test, ["a", "t2"]⟩, s.startAt ⟨.teardown, ["a"]⟩)))
     = some (true, some 17, some 20, some 22) := by decide +kernel
+
+/-! ### (3) Which exceptions abort what: classes, subclasses, side threads
+
+  `RunContext.handle_exception` classifies with `isinstance`: an instance of a project-defined SUBCLASS of
+  `AbortSuite` / `AbortAllTests` (`class EnvironmentDown(lcc.AbortAllTests)`) is an `AbortSuite` / `AbortAllTests`.
+  `Run.ExcClass` lists the classes user code can raise, `ExcClass.kind` is the classification; the table
+  `handleExcTable` (obligation `Generated/C08TablesCheck.handle_exception_table_agrees`, re-extracted on every run by
+  executing the real method on an instance of each class) ties both to the code. -/
+
+open LccModel.Run in
+/-- **What handling an exception of class `c` does to the abort flags** (raised in the test's own thread, in a
+    body / hook / fixture of suite `suite`): `AbortAllTests` AND its subclasses set the session flag,
+    `AbortSuite` AND its subclasses add the suite, everything else (plain exceptions, `AbortTest` and its
+    subclasses) leaves both alone. -/
+theorem abort_class_effects (c : ExcClass) (suite : Report.Path) (ts : TS) :
+    (exec (handleException c.kind (some suite) true) ts).2.abortAll =
+      (ts.abortAll || (c == .abortAll || c == .subAbortAll)) ∧
+    (exec (handleException c.kind (some suite) true) ts).2.abortedSuites =
+      ts.abortedSuites ++ (if c == .abortSuite || c == .subAbortSuite then [some suite] else []) := by
+  have h := handleException_flags c.kind (some suite) true ts
+  cases c <;> exact ⟨h.1.trans (by rfl), h.2.trans (by rfl)⟩
+
+open LccModel.Run in
+/-- … hence after an `AbortAllTests` — or an instance of ANY subclass of it — has been handled, the context
+    skips every task that has not started, whatever the other facts are -/
+theorem abort_all_and_subclasses_skip_everything (c : ExcClass) (hc : c = .abortAll ∨ c = .subAbortAll)
+    (suite : Report.Path) (ts : TS) (interrupted pending suiteAborted stop failed isTest : Bool) :
+    (skipReason interrupted pending (exec (handleException c.kind (some suite) true) ts).2.abortAll suiteAborted stop
+      failed isTest).isSome = true := by
+  have h := (abort_class_effects c suite ts).1
+  refine global_abort_skips_everything _ _ _ _ _ _ _ (Or.inr (Or.inr ?_))
+  rw [h]
+  rcases hc with rfl | rfl <;> simp
+
+open LccModel.Run in
+/-- … and after an `AbortSuite` — or an instance of ANY subclass of it — raised in suite `suite`, the tests of
+    that suite that have not started are skipped (the flag `suiteAborted` the decision reads is membership of the
+    test's own parent suite in `_aborted_suites`) -/
+theorem abort_suite_and_subclasses_skip_the_suite (c : ExcClass) (hc : c = .abortSuite ∨ c = .subAbortSuite)
+    (suite : Report.Path) (ts : TS) (stop failed : Bool) :
+    skipReason false false false
+      ((exec (handleException c.kind (some suite) true) ts).2.abortedSuites.contains (some suite)) stop failed true
+      = some .abortedSuite := by
+  have h := (abort_class_effects c suite ts).2
+  rw [h]
+  rcases hc with rfl | rfl <;> simp [skipReason]
+
+open LccModel.Run in
+/-- **User code itself never sets an abort flag** — whatever a unit of user code does (any script: logs, steps,
+    attachment blocks, raises of any class, `lcc.Thread`s whose targets raise `AbortTest` / `AbortSuite` /
+    `AbortAllTests` or a subclass), the flags are untouched when the unit ends; only the runner's
+    `handle_exception`, called for the exception that leaves the unit in the test's own thread, sets them.  In
+    particular an Abort* that ends an `lcc.Thread` aborts nothing: `Thread.run` logs it (the location is failed,
+    C02) and the thread ends. -/
+theorem user_code_never_sets_abort_flags (u : UnitId) (sc : Script) (ts : TS) :
+    (exec (runUnit u sc) ts).2.abortAll = ts.abortAll ∧ (exec (runUnit u sc) ts).2.abortedSuites = ts.abortedSuites :=
+  keeps_runUnit u sc ts
+
+open LccModel.Run LccModel.Run.FlagSample in
+/-- non-vacuity / the concrete behaviour (project `FlagSample.P`): test `s.t`'s only failing act is `raise` of an
+    instance of a SUBCLASS of `AbortAllTests` inside an `lcc.Thread`: the task FAILS (error log of `Thread.run`),
+    no flag is set; test `s.u` raises the same in the test's own thread, from inside two nested
+    `with prepare_attachment` blocks: failed, and the session flag is set -/
+example :
+    (o1.res = .failure ∧ o1.eff.abortAll = false ∧ o1.eff.abortedSuites = [] ∧ o1.err = none) ∧
+    (o2.res = .failure ∧ o2.eff.abortAll = true ∧ o2.eff.abortedSuites = [] ∧ o2.err = none) := by
+  decide
 
 end LccModel.C08
